@@ -21,6 +21,7 @@
 #include "specs/md5_spec.h"
 #undef __SSE2__
 #include "crypto/hash/md5.h"
+#include "stubs/hash_libc.h"
 
 #ifndef VF_REPLAY
 
@@ -76,6 +77,15 @@ __CPROVER_ensures(ctx->hash[0] == (uint32_t)vf_blk_h[0] && ctx->hash[1] == (uint
 /* ------------------------------------------------------------------ U / F ------ */
 #ifndef VF_HASH_STREAM
 
+/* I: RFC 1321 3.3 initial value, nothing absorbed yet */
+static inline void
+md5_init(md5_ctx_p ctx)
+__CPROVER_requires(__CPROVER_is_fresh(ctx, sizeof(md5_ctx_t)))
+__CPROVER_assigns(ctx->count, __CPROVER_object_upto(ctx->hash, sizeof(ctx->hash)))
+__CPROVER_ensures(ctx->hash[0] == VF_MD5_IV0 && ctx->hash[1] == VF_MD5_IV1 &&
+    ctx->hash[2] == VF_MD5_IV2 && ctx->hash[3] == VF_MD5_IV3 && ctx->count == 0)
+;
+
 /* U entry tail length and what the call feeds to the compression function */
 #define VF_MD5_T0(ctx)		((size_t)(__CPROVER_old((ctx)->count) & (VF_MD5_B - 1)))
 #define VF_MD5_FED(ctx, n)	((VF_MD5_T0(ctx) + (n)) & ~(size_t)(VF_MD5_B - 1))
@@ -103,6 +113,7 @@ __CPROVER_assigns(vf_blk_len, vf_blk_at, __CPROVER_object_whole(vf_blk_h))
 __CPROVER_ensures(ctx->count == __CPROVER_old(ctx->count) + data_size)
 /* exactly the complete blocks of tail || data are fed, in order, nothing else */
 __CPROVER_ensures(vf_blk_len == __CPROVER_old(vf_blk_len) + VF_MD5_FED(ctx, data_size))
+#ifndef VF_U_NOCONTENT	/* content half (which byte lands where) */
 __CPROVER_ensures(VF_BLK_IN(VF_MD5_FED(ctx, data_size)) ==>
     vf_blk_at == ((VF_BLK_J < VF_MD5_T0(ctx)) ? VF_MD5_OLDTAIL(ctx) : data[VF_BLK_J - VF_MD5_T0(ctx)]))
 __CPROVER_ensures(!VF_BLK_IN(VF_MD5_FED(ctx, data_size)) ==> vf_blk_at == __CPROVER_old(vf_blk_at))
@@ -112,6 +123,7 @@ __CPROVER_ensures(vf_t_k < ((VF_MD5_T0(ctx) + data_size) & (VF_MD5_B - 1)) ==>
 	((VF_MD5_FED(ctx, data_size) + vf_t_k < VF_MD5_T0(ctx)) ?
 	    __CPROVER_old(((const uint8_t *)ctx->buffer)[vf_t_k & (VF_MD5_B - 1)]) :
 	    data[VF_MD5_FED(ctx, data_size) + vf_t_k - VF_MD5_T0(ctx)]))
+#endif
 /* chaining value: untouched without a complete block, else whatever the last transform left */
 __CPROVER_ensures(VF_MD5_FED(ctx, data_size) == 0 ==>
     (ctx->hash[0] == __CPROVER_old(ctx->hash[0]) && ctx->hash[1] == __CPROVER_old(ctx->hash[1]) &&
@@ -184,6 +196,100 @@ __CPROVER_ensures(vf_d_len[__CPROVER_old(vf_d_n)] == vf_s_len && vf_d_at[__CPROV
     vf_d_size[__CPROVER_old(vf_d_n)] == MD5_HASH_SIZE)
 __CPROVER_ensures(vf_d_k < MD5_HASH_SIZE ==> digest[vf_d_k] == vf_d_dig[__CPROVER_old(vf_d_n)])
 __CPROVER_ensures(vf_c_k < sizeof(md5_ctx_t) ==> ((const uint8_t *)ctx)[vf_c_k] == 0)
+;
+
+/* ---- C07: HMAC-MD5 (RFC 2104); B = 64, digest 16 bytes ---- */
+static inline void
+hmac_md5_init(const uint8_t *key, const size_t key_len, hmac_md5_ctx_p hctx)
+__CPROVER_requires(__CPROVER_is_fresh(hctx, sizeof(hmac_md5_ctx_t)))
+__CPROVER_requires(VF_KEY_FRESH(key, key_len))
+__CPROVER_requires(vf_d_n == 0)
+__CPROVER_assigns(__CPROVER_object_whole(hctx))
+VF_STREAM_GHOST_ASSIGNS
+VF_HMAC_INIT_POST(key, key_len, hctx, VF_MD5_B, MD5_HASH_SIZE)
+;
+static inline void
+hmac_md5_update(hmac_md5_ctx_p hctx, const uint8_t *data, const size_t data_size)
+__CPROVER_requires(__CPROVER_is_fresh(hctx, sizeof(hmac_md5_ctx_t)))
+__CPROVER_requires(data_size == 0 || __CPROVER_is_fresh(data, data_size))
+__CPROVER_requires(vf_s_open == 1 && vf_s_ctx == &hctx->ctx)
+/* only the hash context: k_opad is preserved by the frame */
+__CPROVER_assigns(__CPROVER_object_upto(&hctx->ctx, sizeof(md5_ctx_t)), vf_s_len, vf_s_at)
+__CPROVER_ensures(vf_s_open == 1 && vf_s_len == __CPROVER_old(vf_s_len) + data_size)
+__CPROVER_ensures(vf_s_at ==
+    ((vf_s_k >= __CPROVER_old(vf_s_len) && vf_s_k - __CPROVER_old(vf_s_len) < data_size) ?
+	data[vf_s_k - __CPROVER_old(vf_s_len)] : __CPROVER_old(vf_s_at)))
+;
+static inline void
+hmac_md5_final(hmac_md5_ctx_p hctx, uint8_t *digest)
+__CPROVER_requires(__CPROVER_is_fresh(hctx, sizeof(hmac_md5_ctx_t)))
+__CPROVER_requires(__CPROVER_is_fresh(digest, MD5_HASH_SIZE))
+__CPROVER_requires(vf_s_open == 1 && vf_s_ctx == &hctx->ctx && vf_d_n <= 1)
+__CPROVER_assigns(__CPROVER_object_whole(hctx), __CPROVER_object_upto(digest, MD5_HASH_SIZE))
+VF_STREAM_GHOST_ASSIGNS
+VF_HMAC_FINAL_POST(hctx, hmac_md5_ctx_t, digest, VF_MD5_B, MD5_HASH_SIZE)
+;
+static inline void
+hmac_md5(const uint8_t *key, const size_t key_len, const uint8_t *data,
+    const size_t data_size, uint8_t *digest)
+__CPROVER_requires(VF_KEY_FRESH(key, key_len))
+__CPROVER_requires(data_size == 0 || __CPROVER_is_fresh(data, data_size))
+__CPROVER_requires(__CPROVER_is_fresh(digest, MD5_HASH_SIZE))
+__CPROVER_requires(vf_d_n == 0)
+__CPROVER_assigns(__CPROVER_object_upto(digest, MD5_HASH_SIZE))
+VF_STREAM_GHOST_ASSIGNS
+VF_HMAC_ONESHOT_POST(key, key_len, data, data_size, digest, VF_MD5_B, MD5_HASH_SIZE)
+;
+static inline void
+md5_hmac_get_digest(const void *key, const size_t key_size,
+    const void *data, const size_t data_size, uint8_t *digest)
+__CPROVER_requires(VF_KEY_FRESH(key, key_size))
+__CPROVER_requires(data_size == 0 || __CPROVER_is_fresh(data, data_size))
+__CPROVER_requires(__CPROVER_is_fresh(digest, MD5_HASH_SIZE))
+__CPROVER_requires(vf_d_n == 0)
+__CPROVER_assigns(__CPROVER_object_upto(digest, MD5_HASH_SIZE))
+VF_STREAM_GHOST_ASSIGNS
+VF_HMAC_ONESHOT_POST(key, key_size, data, data_size, digest, VF_MD5_B, MD5_HASH_SIZE)
+;
+static inline void
+md5_hmac_get_digest_str(const char *key, size_t key_size,
+    const char *data, size_t data_size, char *digest_str)
+__CPROVER_requires(VF_KEY_FRESH(key, key_size))
+__CPROVER_requires(data_size == 0 || __CPROVER_is_fresh(data, data_size))
+__CPROVER_requires(__CPROVER_is_fresh(digest_str, MD5_HASH_STR_SIZE + 1))
+__CPROVER_requires(vf_d_n == 0)
+__CPROVER_assigns(__CPROVER_object_upto(digest_str, MD5_HASH_STR_SIZE + 1))
+VF_STREAM_GHOST_ASSIGNS
+__CPROVER_ensures(vf_d_n == VF_HMAC_NK(key_size, VF_MD5_B) + 2)
+VF_HEXSTR_POST(digest_str, MD5_HASH_SIZE, vf_d_dig[VF_HMAC_NK(key_size, VF_MD5_B) + 1])
+;
+
+/* ---- C04: one-shot and hex-string entry points ---- */
+static inline void
+md5_cvt_hex(const uint8_t *bin, uint8_t *hex)
+__CPROVER_requires(__CPROVER_r_ok(bin, MD5_HASH_SIZE) && __CPROVER_w_ok(hex, MD5_HASH_STR_SIZE + 1))
+__CPROVER_assigns(__CPROVER_object_upto(hex, MD5_HASH_STR_SIZE + 1))
+VF_HEXSTR_POST(hex, MD5_HASH_SIZE, bin[vf_d_k])
+;
+static inline void
+md5_get_digest(const void *data, const size_t data_size, uint8_t *digest)
+__CPROVER_requires(data_size == 0 || __CPROVER_is_fresh(data, data_size))
+__CPROVER_requires(__CPROVER_is_fresh(digest, MD5_HASH_SIZE))
+__CPROVER_requires(vf_d_n == 0)
+__CPROVER_assigns(__CPROVER_object_upto(digest, MD5_HASH_SIZE))
+VF_STREAM_GHOST_ASSIGNS
+VF_HASH_ONESHOT_POST(data, data_size, MD5_HASH_SIZE)
+__CPROVER_ensures(vf_d_k < MD5_HASH_SIZE ==> digest[vf_d_k] == vf_d_dig[0])
+;
+static inline void
+md5_get_digest_str(const char *data, const size_t data_size, char *digest_str)
+__CPROVER_requires(data_size == 0 || __CPROVER_is_fresh(data, data_size))
+__CPROVER_requires(__CPROVER_is_fresh(digest_str, MD5_HASH_STR_SIZE + 1))
+__CPROVER_requires(vf_d_n == 0)
+__CPROVER_assigns(__CPROVER_object_upto(digest_str, MD5_HASH_STR_SIZE + 1))
+VF_STREAM_GHOST_ASSIGNS
+VF_HASH_ONESHOT_POST(data, data_size, MD5_HASH_SIZE)
+VF_HEXSTR_POST(digest_str, MD5_HASH_SIZE, vf_d_dig[0])
 ;
 #endif /* VF_HASH_STREAM */
 
